@@ -20,4 +20,9 @@ PROPERTIES = {
                     "one shared contract instantiated for each of the four bundled clients",
         assumptions=["bytes on the wire for multipart are httpx's", "interleavings inside httpx are outside this family"],
     ),
+    "C06": dict(
+        modules=["contracts.c06_input_types"],
+        explanation="input type translator and default-literal translator against the image/coercion spec functions, by structural induction",
+        assumptions=["acceptance/refusal of concrete values by the emitted annotations is pydantic's (assumed contract)"],
+    ),
 }
